@@ -56,7 +56,13 @@ CHECKS += [
  session("C17", "6/C17", "The developers' debug assertions are state invariants of the core model (clean trees, never down) checked by TLC over every alphabet; offender sessions send odd requests in any order and a catalogue of undecodable lines while a witness session's round trips must keep being answered correctly (debug build; a panic of the core task is an observation the spec cannot explain)."),
 ]
 
-PENDING = ["C11","C12","C16","C18","C19","C20"]
+c16 = core("C16", "6/C16", "TLC checks the aggregator step machine (flag, two ordered buffers, outstanding sleep tasks, one-slot tick channel, select! race) for every arrival sequence within the bounds: nothing lost, duplicated or reordered, no event older than the interval, a pending flush for every non-empty buffer, and (thorough) every event eventually sent under weak fairness; the real PStateAggregator runs on tokio's paused clock and TLC decides whether the recorded batches and their virtual send times are a behaviour of the spec.")
+c16["engine"] = "tlc-aggregator"
+c16["technique"] = "TLA+ spec (Aggregator) checked by TLC incl. liveness; paused-clock execution of the real aggregator validated by TLC with internal steps inferred"
+c16["level_note"] = "Trusted: TLC, tokio's paused clock, the agg_drv harness. Virtual time in 1 ms steps; client channel never full; the live-session content comparison is not built."
+CHECKS.append(c16)
+
+PENDING = ["C11","C12","C18","C19","C20"]
 
 def main():
     import props
@@ -71,7 +77,9 @@ def main():
                         enable="the harness crate /verif/harness depends on /repo/worterbuch with default-features=false, features=[\"verif\",\"redb\"]",
                         baseline_off_cmd=BASELINE,
                         source_commits=["e19d4a5", "8c537d5", "d18b355"], add_only=True),
-             engines=[dict(name="tlc-session", path="spec/Session.tla spec/Trace_Session.tla spec/MC_Session.tla spec/MC_C02.tla harness/src/sock_drv.rs bin/sess.py",
+             engines=[dict(name="tlc-aggregator", path="spec/Aggregator.tla spec/Trace_Aggregator.tla harness/src/agg_drv.rs",
+                           serves_properties=["C16"], kind_free_text="TLA+ step machine with discrete time, TLC safety+liveness, paused-clock trace validation"),
+                      dict(name="tlc-session", path="spec/Session.tla spec/Trace_Session.tla spec/MC_Session.tla spec/MC_C02.tla harness/src/sock_drv.rs bin/sess.py",
                            serves_properties=["C02", "C13", "C15", "C17"], kind_free_text="session-layer TLA+ model, TLC, socket-level concurrent sessions, position-vector linearizability validation"),
                       dict(name="tlc-persist", path="spec/Persist.tla spec/Trace_Persist.tla harness/src/persist_drv.rs",
                            serves_properties=["C10"], kind_free_text="TLA+ step machine of the flush / crash / load chain, TLC, crash-point enumeration with step tracing"),
